@@ -487,6 +487,12 @@ impl Store {
         batch.insert(&self.idx_context, idx_context_key_from_frame(frame), b"");
         batch.commit()?;
         self.keyspace.persist(fjall::PersistMode::SyncAll)?;
+
+        // Keep the context registry in step with the stored registration frames,
+        // however they got here (append or import), exactly as Store::new rebuilds it
+        if frame.topic == "xs.context" && frame.context_id == ZERO_CONTEXT {
+            self.contexts.write().unwrap().insert(frame.id);
+        }
         Ok(())
     }
 
